@@ -28,7 +28,7 @@ Definition ninfo_ok (cfg : config) (n : ninfo) : Prop :=
   /\ Forall (canon cfg) (n_pods n)
   /\ (forall m, n_metric n = Some m ->
         n_sums n = rebuild cfg m (n_ut n) (n_pods n)
-        /\ (forall t, m_ut m = Some t -> n_ut n = t)).
+        /\ n_ut n = fresh_ut m).
 
 Definition cache_ok (cfg : config) (c : cache) : Prop :=
   forall k n, alookup k c = Some n -> ninfo_ok cfg n.
@@ -126,8 +126,7 @@ Proof.
   apply cache_ok_aset; [exact Hc|].
   pose proof (get_node_ok cfg c node Hc) as (Hnd & Hcan & Hs).
   split; [|split]; cbn [n_pods n_metric n_ut n_sums]; [exact Hnd|exact Hcan|].
-  intros m0 Hm0. injection Hm0 as <-. split; [reflexivity|].
-  intros t Ht. now rewrite Ht.
+  intros m0 Hm0. injection Hm0 as <-. split; reflexivity.
 Qed.
 
 Lemma del_metric_ok cfg node c : cache_ok cfg c -> cache_ok cfg (del_metric node c).
@@ -203,94 +202,16 @@ Proof.
   cbn [refeed map fst snd] in *. fold (refeed cfg l). rewrite IH. now rewrite Hx.
 Qed.
 
-(* the fresh cache fed the current report and pods holds the same sums, provided the report
-   carries an update time (or the cache has never seen one for this node entry) *)
+(* the fresh cache fed the current report and pods holds the same sums *)
 Lemma ninfo_fresh_equal cfg n m :
-  ninfo_ok cfg n -> n_metric n = Some m ->
-  (is_some (m_ut m) = true \/ n_ut n = zero_time) ->
-  fresh_sums cfg n = n_sums n.
+  ninfo_ok cfg n -> n_metric n = Some m -> fresh_sums cfg n = n_sums n.
 Proof.
-  intros (_ & Hcan & Hs) Hm Hut.
+  intros (_ & Hcan & Hs) Hm.
   destruct (Hs m Hm) as [Hsum Hu].
-  unfold fresh_sums. rewrite Hm, (refeed_id _ _ Hcan), Hsum. f_equal.
-  unfold fresh_ut. destruct (m_ut m) as [t|] eqn:Et.
-  - symmetry. now apply Hu.
-  - destruct Hut as [Hut|Hut]; [discriminate|now rewrite Hut].
+  unfold fresh_sums. now rewrite Hm, (refeed_id _ _ Hcan), Hsum, Hu.
 Qed.
 
 Lemma fresh_equal cfg ops node n m :
   alookup node (run cfg ops) = Some n -> n_metric n = Some m ->
-  (is_some (m_ut m) = true \/ n_ut n = zero_time) ->
   fresh_sums cfg n = n_sums n.
 Proof. intros Hn. apply ninfo_fresh_equal. eapply run_ok; eassumption. Qed.
-
-(* under [ops_timed] every stored report carries an update time *)
-Definition metrics_timed (c : cache) : Prop :=
-  forall k n m, alookup k c = Some n -> n_metric n = Some m -> is_some (m_ut m) = true.
-
-Lemma put_or_cleanup_lookup (c : cache) k n k' n' :
-  alookup k' (put_or_cleanup c k n) = Some n' ->
-  (k' = k /\ n' = n) \/ alookup k' c = Some n'.
-Proof.
-  unfold put_or_cleanup.
-  destruct (n_metric n); [|destruct (n_pods n)].
-  - rewrite alookup_aset. destruct (k =? k') eqn:E.
-    + apply Z.eqb_eq in E. intro H. injection H as <-. left. now split.
-    + tauto.
-  - rewrite alookup_aremove. destruct (k =? k'); [discriminate|tauto].
-  - rewrite alookup_aset. destruct (k =? k') eqn:E.
-    + apply Z.eqb_eq in E. intro H. injection H as <-. left. now split.
-    + tauto.
-Qed.
-
-Lemma assign_timed cfg now node p c : metrics_timed c -> metrics_timed (assign cfg now node p c).
-Proof.
-  intros Hc. unfold assign. destruct ((node =? 0) || p_term p || p_resv p); [exact Hc|].
-  intros k n m. rewrite alookup_aset. destruct (node =? k) eqn:E; [|apply Hc].
-  intro H. injection H as <-. cbn [n_metric]. unfold get_node.
-  destruct (alookup node c) as [n0|] eqn:E0; [|discriminate].
-  intro Hm. eapply Hc; eassumption.
-Qed.
-
-Lemma unassign_timed node uid c : metrics_timed c -> metrics_timed (unassign node uid c).
-Proof.
-  intros Hc. unfold unassign. destruct (node =? 0); [exact Hc|].
-  destruct (alookup node c) as [n0|] eqn:E0; [|exact Hc].
-  intros k n m Hk. apply put_or_cleanup_lookup in Hk. destruct Hk as [[-> ->]|Hk].
-  - cbn [n_metric]. intro Hm. eapply Hc; eassumption.
-  - intro Hm. eapply Hc; eassumption.
-Qed.
-
-Lemma step_timed cfg c o : op_timed o = true -> metrics_timed c -> metrics_timed (step cfg c o).
-Proof.
-  intros Ho Hc. destruct o; cbn [step].
-  - now apply assign_timed.
-  - now apply unassign_timed.
-  - now apply assign_timed.
-  - unfold on_update.
-    set (c1 := if negb (old_node =? 0) && negb (old_node =? p_node p)
-               then unassign old_node (p_uid p) c else c).
-    assert (Hc1 : metrics_timed c1).
-    { unfold c1. destruct (negb (old_node =? 0) && negb (old_node =? p_node p));
-        [now apply unassign_timed|exact Hc]. }
-    destruct (pod_info c1 (p_node p) (p_uid p)) as [o|]; [|now apply assign_timed].
-    destruct (p_term p); [now apply unassign_timed|].
-    destruct (negb (spec_eqb p (pi_pod o)) || negb (cond_eqb p (pi_pod o)));
-      [now apply assign_timed|exact Hc1].
-  - now apply unassign_timed.
-  - unfold set_metric. intros k n m0. rewrite alookup_aset. destruct (node =? k); [|apply Hc].
-    intro H. injection H as <-. cbn [n_metric]. intro H. injection H as <-. exact Ho.
-  - unfold del_metric. destruct (alookup node c) as [n0|] eqn:E0; [|exact Hc].
-    intros k n m Hk. apply put_or_cleanup_lookup in Hk. destruct Hk as [[-> ->]|Hk].
-    + cbn [n_metric]. discriminate.
-    + intro Hm. eapply Hc; eassumption.
-  - exact Hc.
-Qed.
-
-Lemma run_from_timed cfg ops c :
-  ops_timed ops = true -> metrics_timed c -> metrics_timed (fold_left (step cfg) ops c).
-Proof.
-  revert c. induction ops as [|o ops IH]; intros c Ho Hc; [exact Hc|].
-  cbn [ops_timed forallb] in Ho. apply andb_prop in Ho. destruct Ho as [Ho Hops].
-  cbn [fold_left]. apply IH; [exact Hops|]. now apply step_timed.
-Qed.
